@@ -106,3 +106,56 @@ Theorem spec_elim_step : forall g k i j, square g -> (k < length g)%nat -> (i < 
   gget (elim_step g k) i j = gget g i j || (Nat.ltb k i && Nat.ltb k j && gget g k i && gget g k j).
 Proof. exact elim_step_spec. Qed.
 Print Assumptions spec_elim_step.
+
+From SLU Require Import EtreeSymProofs.
+
+(* symmetric mode, completed: for every square pattern with monotone column pointers the A + A^T step of the model is total ... *)
+Theorem c10_at_plus_a_total : forall n colptr rowind, 0 <= n -> wf_csc_mono n colptr rowind ->
+  exists bnz b_colptr b_rowind, at_plus_a n (alen rowind) colptr rowind = Some (bnz, b_colptr, b_rowind).
+Proof. exact at_plus_a_total. Qed.
+Print Assumptions c10_at_plus_a_total.
+
+(* ... and returns exactly the off-diagonal pattern of A + A^T (duplicate-free columns, whatever duplicates the input had) *)
+Theorem c10_at_plus_a_pattern : forall n colptr rowind bnz b_colptr b_rowind,
+  0 <= n -> wf_csc_mono n colptr rowind ->
+  at_plus_a n (alen rowind) colptr rowind = Some (bnz, b_colptr, b_rowind) ->
+  wf_csc_mono n b_colptr b_rowind /\
+  aget b_colptr 0 = Some 0 /\ aget b_colptr n = Some bnz /\ alen b_rowind = bnz /\
+  forall j, 0 <= j < n ->
+    NoDup (col_rows b_colptr (tl b_colptr) b_rowind j) /\
+    forall i, memZ i (col_rows b_colptr (tl b_colptr) b_rowind j) = true <->
+      (i <> j /\ (memZ i (col_rows colptr (tl colptr) rowind j) = true \/
+                  memZ j (col_rows colptr (tl colptr) rowind i) = true)).
+Proof. exact at_plus_a_pattern. Qed.
+Print Assumptions c10_at_plus_a_pattern.
+
+(* sp_colorder in symmetric mode always returns, with the same post-conditions as in the non-symmetric case ... *)
+Theorem c10_colorder_sym_total : forall m n colptr rowind perm_c,
+  0 <= n -> wf_csc_mono n colptr rowind -> is_perm n perm_c ->
+  exists out et0,
+    colorder true m n colptr rowind perm_c = Some out /\ forest n et0 /\ colorder_post n colptr perm_c et0 out.
+Proof. exact colorder_sym_total. Qed.
+Print Assumptions c10_colorder_sym_total.
+
+(* ... and the etree it reports is the definitional elimination tree (symetree_spec) of Pc (A + A^T) Pc^T for the FINAL Pc *)
+Theorem c10_colorder_sym_etree_is_spec : forall m n colptr rowind perm_c,
+  0 <= n -> wf_csc_mono n colptr rowind -> is_perm n perm_c ->
+  exists colbeg colend perm_out etree ccb cce br,
+    colorder true m n colptr rowind perm_c = Some (colbeg, colend, perm_out, etree) /\
+    is_perm n perm_out /\
+    (* the intermediate pattern and tree *)
+    wf_pat n n ccb cce br /\
+    (forall i j pi pj, 0 <= i < n -> 0 <= j < n -> aget perm_c i = Some pi -> aget perm_c j = Some pj ->
+       (memZ pi (col_rows ccb cce br pj) = true <->
+        (i <> j /\ (memZ i (col_rows colptr (tl colptr) rowind j) = true \/
+                    memZ j (col_rows colptr (tl colptr) rowind i) = true)))) /\
+    colorder_post n colptr perm_c (symetree_spec ccb cce br n) (colbeg, colend, perm_out, etree) /\
+    (* the reported tree *)
+    forall cb' ce' ar',
+      (forall i j qi qj, 0 <= i < n -> 0 <= j < n -> aget perm_out i = Some qi -> aget perm_out j = Some qj ->
+         (memZ qi (col_rows cb' ce' ar' qj) = true <->
+          (i <> j /\ (memZ i (col_rows colptr (tl colptr) rowind j) = true \/
+                      memZ j (col_rows colptr (tl colptr) rowind i) = true)))) ->
+      etree = symetree_spec cb' ce' ar' n.
+Proof. exact colorder_sym_etree_is_spec. Qed.
+Print Assumptions c10_colorder_sym_etree_is_spec.
